@@ -152,6 +152,19 @@ CLAIMED["C19"] = dict(
     technique="sequence-term extraction from MIR + homomorphism comparison; decision tables for folds",
 )
 
+CLAIMED["C13"] = dict(
+    category="other",
+    text=("The algebraic laws are decided over the reals by exact polynomial / rational-function identities on terms extracted from MIR: R13.1 last "
+          "row [0,0,1] from new(), preserved by compose(); R13.2 apply(compose(a,b),p) == apply(b,apply(a,p)); R13.3 inverse is None exactly on "
+          "the exact test a*e-b*d == 0 and compose(t,inverse(t)) == identity; R13.4 translate/scale/rotate/skew equal T(o)·L·T(-o) for the "
+          "documented linear part (sin/cos/tan opaque, snap-to-zero branches included); R13.5 scaled/translated/rotated/skewed are "
+          "self.compose(&X) in that operand order; R13.6 AffineOps maps apply over the coordinates. Not decided: float rounding; commutation "
+          "of every predicate and measure with exact similarity maps."),
+    design_ref="DESIGN.md §4 C13",
+    note="Identities hold over the reals, not over f64. Trusted: polynomial normaliser (analyses/poly.py).",
+    technique="term extraction from MIR + canonical polynomial normal forms (no solver)",
+)
+
 NOT_YET = "rule set not implemented in this revision of /verif (see DESIGN.md §7 build order); nothing is claimed"
 NA = {}
 
